@@ -33,7 +33,8 @@
 use chrono::Utc;
 use grin_core::core::hash::{Hash, Hashed};
 use grin_core::core::{
-	Block, BlockHeader, HeaderVersion, Input, Inputs, KernelFeatures, Output, OutputFeatures, TransactionBody, TxKernel,
+	Block, BlockHeader, CompactBlock, HeaderVersion, Input, Inputs, KernelFeatures, Output, OutputFeatures, OutputIdentifier,
+	Segment, SegmentIdentifier, Transaction, TransactionBody, TxKernel,
 };
 use grin_core::global::{self, ChainTypes};
 use grin_core::pow::{Difficulty, Proof, ProofOfWork};
@@ -44,7 +45,11 @@ use grin_p2p::msg::{
 	write_message, BanReason, Consumed, GetPeerAddrs, Hand, Headers, Locator, Message, Msg, MsgHeader, PeerAddrs,
 	Ping, Pong, SegmentRequest, Shake, TxHashSetArchive, TxHashSetRequest, Type,
 };
-use grin_p2p::types::{AttachmentMeta, Capabilities, P2PConfig, PeerAddr, ReasonForBan};
+use grin_p2p::msg::read_message;
+use grin_p2p::types::{
+	AttachmentMeta, Capabilities, ChainAdapter, NetAdapter, P2PConfig, PeerAddr, PeerInfo, ReasonForBan, TxHashSetRead,
+};
+use grin_p2p::Peer;
 use grin_p2p::verif_export::{listen, Codec, MessageHandler, Tracker};
 use grin_util::secp::pedersen::{Commitment, RangeProof};
 use gvharness::*;
@@ -366,7 +371,13 @@ fn run_codec(ver: u32, frags: &[Vec<u8>], gaps: &[u64]) -> RunResult {
 	let mut res = RunResult { events: vec![], got: vec![], end: String::new(), end_bytes: 0, end_maxreq: 0 };
 	loop {
 		MAX_REQ.store(0, Ordering::Relaxed);
-		let (next, bytes_read) = codec.read();
+		let (next, bytes_read) = match std::panic::catch_unwind(std::panic::AssertUnwindSafe(|| codec.read())) {
+			Ok(x) => x,
+			Err(_) => {
+				res.end = "panic".to_string();
+				break;
+			}
+		};
 		let maxreq = MAX_REQ.load(Ordering::Relaxed);
 		match next {
 			Ok(Message::Unknown(t)) => {
@@ -429,7 +440,9 @@ fn split_at_points(stream: &[u8], points: &[usize]) -> Vec<Vec<u8>> {
 
 fn emit_run(cx: &mut Ctx, ver: u32, frags: &[Vec<u8>], r: &RunResult, with_maxreq: bool) {
 	let mut evs = r.events.clone();
-	if with_maxreq {
+	if r.end == "panic" {
+		evs.push("panic".to_string());
+	} else if with_maxreq {
 		evs.push(format!("end:{}:{}:{}", r.end, r.end_bytes, r.end_maxreq));
 	} else {
 		evs.push(format!("end:{}:{}", r.end, r.end_bytes));
@@ -1037,6 +1050,15 @@ fn run_timed(ver: u32, sched: &[(u64, Vec<u8>)], want_pongs: usize, work: &std::
 	let seen = Arc::new(Mutex::new(Seen::default()));
 	let handler = Recorder { ver, work: work.to_path_buf(), id, seen: seen.clone() };
 	let (_conn_handle, stop_handle) = listen(server, ProtocolVersion(ver), Arc::new(Tracker::new()), handler).unwrap();
+	let (pongs, closed) = drive_client(&mut client, sched, want_pongs);
+	stop_handle.stop();
+	let _ = client.shutdown(Shutdown::Both);
+	let s = seen.lock().unwrap();
+	TimedRes { events: s.events.clone(), got: s.got.clone(), pongs, closed, wall_ms: t0.elapsed().as_millis() }
+}
+
+/// the peer's side of a delivery: write the schedule, collect the Pongs, see whether the connection is still up
+fn drive_client(client: &mut TcpStream, sched: &[(u64, Vec<u8>)], want_pongs: usize) -> (usize, bool) {
 	let mut write_failed = false;
 	for (d, f) in sched {
 		if *d > 0 {
@@ -1085,10 +1107,7 @@ fn run_timed(ver: u32, sched: &[(u64, Vec<u8>)], want_pongs: usize, work: &std::
 			Err(_) => closed = true,
 		}
 	}
-	stop_handle.stop();
-	let _ = client.shutdown(Shutdown::Both);
-	let s = seen.lock().unwrap();
-	TimedRes { events: s.events.clone(), got: s.got.clone(), pongs, closed, wall_ms: t0.elapsed().as_millis() }
+	(pongs, closed)
 }
 
 /// a conversation under construction: the stream, what must be delivered, and which codec state waits
@@ -1220,6 +1239,8 @@ struct Scn {
 	cuts: Vec<(usize, u64)>,
 	/// a pause outside the I/O timeouts (model correspondence only, no oracle)
 	outside: bool,
+	/// the reader must end the connection (a refused frame) instead of keeping it open
+	want_closed: bool,
 }
 
 fn make_sched(stream: &[u8], cuts: &[(usize, u64)]) -> Vec<(u64, Vec<u8>)> {
@@ -1265,7 +1286,7 @@ fn timed(cx: &mut Ctx, work: &std::path::Path) {
 		let (items, item) = c.headers(&pool40);
 		c.ping(&mut cx.rng);
 		assert!(inside_topup(items, item, hdr_max, items + 100));
-		scns.push(Scn { name: "Headers(40)+Ping, pause 100 bytes into the first header".into(), conv: c, cuts: vec![(items + 100, LONG)], outside: false });
+		scns.push(Scn { name: "Headers(40)+Ping, pause 100 bytes into the first header".into(), conv: c, cuts: vec![(items + 100, LONG)], outside: false, want_closed: false });
 	}
 	// 2. the same list, pause exactly on an item boundary (after the first header; strictly inside the first top-up read)
 	{
@@ -1273,7 +1294,7 @@ fn timed(cx: &mut Ctx, work: &std::path::Path) {
 		let (items, item) = c.headers(&pool40);
 		c.ping(&mut cx.rng);
 		assert!(inside_topup(items, item, hdr_max, items + item));
-		scns.push(Scn { name: "Headers(40)+Ping, pause on the boundary after item 1".into(), conv: c, cuts: vec![(items + item, LONG)], outside: false });
+		scns.push(Scn { name: "Headers(40)+Ping, pause on the boundary after item 1".into(), conv: c, cuts: vec![(items + item, LONG)], outside: false, want_closed: false });
 	}
 	// 3. a block body
 	{
@@ -1281,7 +1302,7 @@ fn timed(cx: &mut Ctx, work: &std::path::Path) {
 		let b = gen_block(cx, 3, 2);
 		let (body, len) = c.block(&b);
 		c.ping(&mut cx.rng);
-		scns.push(Scn { name: "Block+Ping, pause in the middle of the body".into(), conv: c, cuts: vec![(body + len / 2, LONG)], outside: false });
+		scns.push(Scn { name: "Block+Ping, pause in the middle of the body".into(), conv: c, cuts: vec![(body + len / 2, LONG)], outside: false, want_closed: false });
 	}
 	// 4. a segment response
 	{
@@ -1289,7 +1310,7 @@ fn timed(cx: &mut Ctx, work: &std::path::Path) {
 		let sb = gen_kernel_segment_body(&mut cx.rng, 1000, 4);
 		let (body, len) = c.kernel_segment(&sb);
 		c.ping(&mut cx.rng);
-		scns.push(Scn { name: "KernelSegment+Ping, pause a third into the body".into(), conv: c, cuts: vec![(body + len / 3, LONG)], outside: false });
+		scns.push(Scn { name: "KernelSegment+Ping, pause a third into the body".into(), conv: c, cuts: vec![(body + len / 3, LONG)], outside: false, want_closed: false });
 	}
 	// 5. an attachment: pause inside the second 48 000-byte chunk
 	{
@@ -1297,7 +1318,7 @@ fn timed(cx: &mut Ctx, work: &std::path::Path) {
 		let data = cx.rng.bytes(60_000);
 		let (att, _) = c.archive(&mut cx.rng, &data, work);
 		c.ping(&mut cx.rng);
-		scns.push(Scn { name: "TxHashSetArchive+60000+Ping, pause 777 bytes into the second chunk".into(), conv: c, cuts: vec![(att + 48_000 + 777, LONG)], outside: false });
+		scns.push(Scn { name: "TxHashSetArchive+60000+Ping, pause 777 bytes into the second chunk".into(), conv: c, cuts: vec![(att + 48_000 + 777, LONG)], outside: false, want_closed: false });
 	}
 	// 6. a pause while idle (message boundary): the read times out with nothing pulled and is retried; then a
 	//    pause inside the 16-byte body of a Ping
@@ -1306,7 +1327,7 @@ fn timed(cx: &mut Ctx, work: &std::path::Path) {
 		c.ping(&mut cx.rng);
 		let second = c.stream.len();
 		c.ping(&mut cx.rng);
-		scns.push(Scn { name: "Ping, idle pause, Ping with a pause inside its body".into(), conv: c, cuts: vec![(second, LONG), (second + 11 + 7, 2100)], outside: false });
+		scns.push(Scn { name: "Ping, idle pause, Ping with a pause inside its body".into(), conv: c, cuts: vec![(second, LONG), (second + 11 + 7, 2100)], outside: false, want_closed: false });
 	}
 	// 7. OUTSIDE the I/O timeouts (model correspondence of the timeout itself): 2.5 s in the middle of a frame
 	//    header: the 5 bytes already pulled are dropped, the stream is desynchronised, the reader leaves
@@ -1314,7 +1335,7 @@ fn timed(cx: &mut Ctx, work: &std::path::Path) {
 		let mut c = Conv::new(1);
 		c.ping(&mut cx.rng);
 		c.ping(&mut cx.rng);
-		scns.push(Scn { name: "OUTSIDE: pause in the middle of a frame header".into(), conv: c, cuts: vec![(5, LONG)], outside: true });
+		scns.push(Scn { name: "OUTSIDE: pause in the middle of a frame header".into(), conv: c, cuts: vec![(5, LONG)], outside: true, want_closed: false });
 	}
 	if thorough {
 		// sweep: every body state x offsets (first / middle / last byte of the zone, read boundaries, item and
@@ -1350,13 +1371,13 @@ fn timed(cx: &mut Ctx, work: &std::path::Path) {
 				c.ping(&mut cx.rng);
 				let off = items.wrapping_add(rel);
 				let p = next_pause();
-				scns.push(Scn { name: format!("Headers({})+Ping, pause at {}", n, label), conv: c, cuts: vec![(off, p)], outside: false });
+				scns.push(Scn { name: format!("Headers({})+Ping, pause at {}", n, label), conv: c, cuts: vec![(off, p)], outside: false, want_closed: false });
 			}
 			// two pauses in one list
 			let mut c = Conv::new(ver_of(vi));
 			let (items, _) = c.headers(&hs);
 			c.ping(&mut cx.rng);
-			scns.push(Scn { name: format!("Headers({})+Ping, two pauses", n), conv: c, cuts: vec![(items + 50, 2100), (items + 20 * item + 3, 2500)], outside: false });
+			scns.push(Scn { name: format!("Headers({})+Ping, two pauses", n), conv: c, cuts: vec![(items + 50, 2100), (items + 20 * item + 3, 2500)], outside: false, want_closed: false });
 		}
 		// plain bodies, block, segment, unknown type, archive body, attachment
 		for vi in 0..4 {
@@ -1373,7 +1394,7 @@ fn timed(cx: &mut Ctx, work: &std::path::Path) {
 					_ => body + len - 1,
 				};
 				let p = next_pause();
-				scns.push(Scn { name: format!("Block+Ping, pause at body offset {}/{}", off - body, len), conv: c, cuts: vec![(off, p)], outside: false });
+				scns.push(Scn { name: format!("Block+Ping, pause at body offset {}/{}", off - body, len), conv: c, cuts: vec![(off, p)], outside: false, want_closed: false });
 			}
 			let sb = gen_kernel_segment_body(&mut cx.rng, ver, 1 + vi as u64);
 			for frac in [1usize, 2, 3] {
@@ -1383,7 +1404,7 @@ fn timed(cx: &mut Ctx, work: &std::path::Path) {
 				c.ping(&mut cx.rng);
 				let off = body + len * frac / 4;
 				let p = next_pause();
-				scns.push(Scn { name: format!("Ping+KernelSegment+Ping, pause at body offset {}/{}", off - body, len), conv: c, cuts: vec![(off, p)], outside: false });
+				scns.push(Scn { name: format!("Ping+KernelSegment+Ping, pause at body offset {}/{}", off - body, len), conv: c, cuts: vec![(off, p)], outside: false, want_closed: false });
 			}
 			let ub = cx.rng.bytes(300);
 			for rel in [0usize, 150, 299] {
@@ -1391,7 +1412,7 @@ fn timed(cx: &mut Ctx, work: &std::path::Path) {
 				let (body, _) = c.unknown(200, &ub);
 				c.ping(&mut cx.rng);
 				let p = next_pause();
-				scns.push(Scn { name: format!("Unknown(300)+Ping, pause at body offset {}", rel), conv: c, cuts: vec![(body + rel, p)], outside: false });
+				scns.push(Scn { name: format!("Unknown(300)+Ping, pause at body offset {}", rel), conv: c, cuts: vec![(body + rel, p)], outside: false, want_closed: false });
 			}
 		}
 		let data = cx.rng.bytes(100_000);
@@ -1400,7 +1421,7 @@ fn timed(cx: &mut Ctx, work: &std::path::Path) {
 			let (att, _) = c.archive(&mut cx.rng, &data, work);
 			c.ping(&mut cx.rng);
 			let p = next_pause();
-			scns.push(Scn { name: format!("TxHashSetArchive+100000+Ping, pause at attachment offset {}", rel), conv: c, cuts: vec![(att + rel, p)], outside: false });
+			scns.push(Scn { name: format!("TxHashSetArchive+100000+Ping, pause at attachment offset {}", rel), conv: c, cuts: vec![(att + rel, p)], outside: false, want_closed: false });
 		}
 		{
 			// inside the 48-byte body of the archive message itself, then inside the attachment
@@ -1408,7 +1429,7 @@ fn timed(cx: &mut Ctx, work: &std::path::Path) {
 			let small = cx.rng.bytes(5_000);
 			let (att, _) = c.archive(&mut cx.rng, &small, work);
 			c.ping(&mut cx.rng);
-			scns.push(Scn { name: "TxHashSetArchive+5000+Ping, pause inside the archive body and inside the attachment".into(), conv: c, cuts: vec![(att - 20, 2100), (att + 2_500, 2500)], outside: false });
+			scns.push(Scn { name: "TxHashSetArchive+5000+Ping, pause inside the archive body and inside the attachment".into(), conv: c, cuts: vec![(att - 20, 2100), (att + 2_500, 2500)], outside: false, want_closed: false });
 		}
 		// random offsets anywhere after an accepted header, several pauses per conversation
 		for i in 0..12usize {
@@ -1436,7 +1457,7 @@ fn timed(cx: &mut Ctx, work: &std::path::Path) {
 			}
 			cuts.sort_unstable();
 			cuts.dedup_by_key(|c| c.0);
-			scns.push(Scn { name: format!("mixed conversation {} with random pauses", i), conv: c, cuts, outside: false });
+			scns.push(Scn { name: format!("mixed conversation {} with random pauses", i), conv: c, cuts, outside: false, want_closed: false });
 		}
 	}
 
@@ -1496,14 +1517,14 @@ fn deliver_all(cx: &mut Ctx, scns: &[Scn], work: &std::path::Path, tag: &str) {
 		}
 		cx.stat(&if scn.outside { format!("{}: deliveries with a pause outside the I/O timeouts (model correspondence only)", tag) } else { format!("{}: deliveries with tolerated pauses", tag) });
 		let want: Vec<Exp> = scn.conv.exp.iter().filter(|e| !matches!(e, Exp::Unknown(_))).cloned().collect();
-		if !scn.outside && (r.got != want || r.pongs != scn.conv.pings || r.closed) {
+		if !scn.outside && (r.got != want || r.pongs != scn.conv.pings || r.closed != scn.want_closed) {
 			cx.fails += 1;
 			let short = |v: &Vec<Exp>| v.iter().map(|e| format!("{:?}", e).chars().take(48).collect::<String>()).collect::<Vec<_>>();
 			cx.out.raw(&format!(
-				"#ORACLE-FAIL C19 messages written with pauses within the I/O timeouts were not delivered exactly / not answered / connection lost: {} (version {}, messages {:?}, pauses {:?} (offset, ms), states {:?}): delivered {:?} expected {:?}; pongs {} of {}; connection closed by the reader: {}",
+				"#ORACLE-FAIL C19 messages written with pauses within the I/O timeouts were not delivered exactly / not answered / connection lost: {} (version {}, messages {:?}, pauses {:?} (offset, ms), states {:?}): delivered {:?} expected {:?}; pongs {} of {}; connection closed by the reader: {} (expected {})",
 				scn.name, scn.conv.ver, scn.conv.names, scn.cuts,
 				scn.cuts.iter().map(|c| scn.conv.state_at(c.0)).collect::<Vec<_>>(),
-				short(&r.got), short(&want), r.pongs, scn.conv.pings, r.closed
+				short(&r.got), short(&want), r.pongs, scn.conv.pings, r.closed, scn.want_closed
 			));
 		}
 		// attachments: exactly one end-of-attachment per archive, nothing after it
@@ -1563,7 +1584,7 @@ fn attachments(cx: &mut Ctx, work: &std::path::Path) {
 		// in one burst
 		let (c, att) = build(cx);
 		let len = c.stream.len();
-		scns.push(Scn { name: format!("TxHashSetArchive+{}+Ping+TxHashSetArchive+{}+Ping in one burst", n, n2), conv: c, cuts: vec![], outside: false });
+		scns.push(Scn { name: format!("TxHashSetArchive+{}+Ping+TxHashSetArchive+{}+Ping in one burst", n, n2), conv: c, cuts: vec![], outside: false, want_closed: false });
 		// cut exactly at every chunk boundary (start, 48 000, 96 000, …, end) and one byte either side
 		let mut points: Vec<usize> = vec![];
 		let mut k = 0;
@@ -1589,6 +1610,7 @@ fn attachments(cx: &mut Ctx, work: &std::path::Path) {
 			conv: c,
 			cuts: points.iter().map(|&o| (o, 2)).collect(),
 			outside: false,
+			want_closed: false,
 		});
 		if cx.thorough {
 			// every one of those cuts on its own, and a cut in the middle of every chunk
@@ -1605,12 +1627,600 @@ fn attachments(cx: &mut Ctx, work: &std::path::Path) {
 					continue;
 				}
 				let (c, _) = build(cx);
-				scns.push(Scn { name: format!("TxHashSetArchive+{}+Ping+…, one cut at attachment offset {}", n, o as i64 - att as i64), conv: c, cuts: vec![(o, 2)], outside: false });
+				scns.push(Scn { name: format!("TxHashSetArchive+{}+Ping+…, one cut at attachment offset {}", n, o as i64 - att as i64), conv: c, cuts: vec![(o, 2)], outside: false, want_closed: false });
 			}
 		}
 	}
 	cx.out.raw(&format!("#STAT attach: attachment sizes {:?} (chunk size {})", sizes, CHUNK));
 	deliver_all(cx, &scns, work, "attach");
+}
+
+// ---------------------------------------------------------------------------------------------
+// Headers frames whose item count is fully satisfied, followed INSIDE msg_len by excess bytes
+
+fn headers_excess(cx: &mut Ctx) {
+	let ver = 1;
+	let hs: Vec<BlockHeader> = header_pool(cx, 33);
+	let items: Vec<Vec<u8>> = hs.iter().map(|h| sv(h, ver)).collect();
+	// what the codec has read ahead beyond the last header when it is decoded
+	let slack = global::header_size_bytes(63) - items[0].len();
+	let ping = wire(&Msg::new(Type::Ping, Ping { total_difficulty: Difficulty::from_num(1), height: 2 }, ProtocolVersion(ver)).unwrap());
+	for count in [1usize, 2, 33] {
+		for junk in [1usize, 2, slack - 1, slack, slack + 1, 1000, 100_000] {
+			let mut body = (count as u16).to_be_bytes().to_vec();
+			for it in items.iter().take(count) {
+				body.extend_from_slice(it);
+			}
+			let items_end = 11 + body.len();
+			body.extend_from_slice(&cx.rng.bytes(junk));
+			let mut w = sv(&MsgHeader::new(Type::Headers, body.len() as u64), ver);
+			let frame_len = w.len() + body.len();
+			w.extend_from_slice(&body);
+			w.extend_from_slice(&ping);
+			// in one piece, and cut right after the last announced item
+			for frags in [vec![w.clone()], vec![w[..items_end].to_vec(), w[items_end..].to_vec()]] {
+				let gaps = vec![500u64; frags.len()];
+				let r = run_codec(ver, &frags, &gaps);
+				cx.stat("Headers frames with all announced items present and excess bytes inside msg_len");
+				let batches: Vec<String> = r.events.iter().filter(|e| e.starts_with("headers:")).map(|e| e.split(':').take(3).collect::<Vec<_>>().join(":")).collect();
+				let want_batches: Vec<String> = if count > 32 { vec![format!("headers:32:{}", count - 32)] } else { vec![] };
+				let total: u64 = r.events.iter().map(|e| e.rsplit(':').next().unwrap().parse::<u64>().unwrap_or(0)).sum::<u64>() + r.end_bytes;
+				if r.end == "panic" {
+					cx.fails += 1;
+					let txt = format!(
+						"the codec panicked on a Headers frame announcing {} items, carrying them and {} excess bytes inside msg_len {} ({} fragments): stream {}",
+						count, junk, body.len(), frags.len(), hex(&w).chars().take(300).collect::<String>()
+					);
+					cx.out.raw(&format!("#ORACLE-FAIL C19 headers-excess-bytes-panic {}", txt));
+					cx.out.raw(&format!("#ORACLE-FAIL C11 headers-excess-bytes-panic {}", txt));
+				} else if r.end != "BadMessage" || batches != want_batches || r.events.len() != want_batches.len() || total > frame_len as u64 {
+					cx.fails += 1;
+					cx.out.raw(&format!(
+						"#ORACLE-FAIL C19 Headers frame with {} items and {} excess bytes inside msg_len not refused with BadMessage after exactly the full batches: end {} batches {:?} (expected {:?}) events {} bytes read {} of frame {}",
+						count, junk, r.end, batches, want_batches, r.events.len(), total, frame_len
+					));
+				}
+				emit_run(cx, ver, &frags, &r, false);
+			}
+		}
+	}
+	cx.out.raw(&format!("#STAT headers-excess: read-ahead slack after the last header = {} bytes", slack));
+}
+
+// ---------------------------------------------------------------------------------------------
+// address-carrying messages through msg::read_message on a fragmented TCP stream
+
+/// what `PeerAddr::read` makes of an address: IPv4-mapped IPv6 becomes IPv4 (recorded C10 finding
+/// peeraddr-v6-mapped-to-v4), everything else is kept
+fn norm_addr(a: &PeerAddr) -> PeerAddr {
+	use std::net::{SocketAddr, SocketAddrV4};
+	match a.0 {
+		SocketAddr::V6(v6) => match v6.ip().to_ipv4_mapped() {
+			Some(v4) => PeerAddr(SocketAddr::V4(SocketAddrV4::new(v4, v6.port()))),
+			None => a.clone(),
+		},
+		_ => a.clone(),
+	}
+}
+
+fn read_over_tcp<T: ser::Readable + Writeable>(frags: &[Vec<u8>], ver: u32, ty: Type) -> Result<Vec<u8>, String> {
+	let (mut a, mut b) = hs_pair();
+	let frags: Vec<Vec<u8>> = frags.to_vec();
+	let t = std::thread::spawn(move || {
+		a.set_nodelay(true).ok();
+		for f in &frags {
+			if a.write_all(f).is_err() {
+				break;
+			}
+			let _ = a.flush();
+			std::thread::sleep(Duration::from_micros(300));
+		}
+		let _ = a.shutdown(Shutdown::Write);
+		let mut sink = [0u8; 16];
+		let _ = a.read(&mut sink);
+	});
+	let _ = b.set_read_timeout(Some(Duration::from_secs(10)));
+	let r = catch(std::panic::AssertUnwindSafe(|| read_message::<T, _>(&mut b, ProtocolVersion(ver), ty)));
+	let _ = b.shutdown(Shutdown::Both);
+	let _ = t.join();
+	match r {
+		Ok(Ok(v)) => Ok(sv(&v, ver)),
+		Ok(Err(e)) => Err(err_name(&e)),
+		Err(_) => Err("panic".to_string()),
+	}
+}
+
+fn addr_messages(cx: &mut Ctx) {
+	use std::net::{IpAddr, Ipv6Addr, SocketAddr};
+	let v6 = |s: &str, port: u16| PeerAddr(SocketAddr::new(IpAddr::V6(s.parse::<Ipv6Addr>().unwrap()), port));
+	let v4 = |s: &str, port: u16| PeerAddr(s.parse::<SocketAddr>().map(|a| SocketAddr::new(a.ip(), port)).unwrap());
+	// ::/96 addresses that are NOT IPv4-mapped, other IPv6, IPv4-mapped ones, IPv4
+	let compat = ["::1", "::", "::10.0.0.1", "::0.2.0.3", "::255.255.255.255"];
+	let other6 = ["2001:db8::1", "fe80::1", "::1:0:0", "ffff::10.0.0.1"];
+	let mapped = ["::ffff:10.0.0.1", "::ffff:0.0.0.1", "::ffff:255.255.255.255", "::ffff:0.2.0.3"];
+	let mut addrs: Vec<PeerAddr> = vec![];
+	for (i, a) in compat.iter().chain(other6.iter()).chain(mapped.iter()).enumerate() {
+		addrs.push(v6(a, 3414 + i as u16));
+	}
+	addrs.push(v4("10.0.0.1:1", 13414));
+	addrs.push(v4("0.0.0.1:1", 0));
+	let caps = Capabilities::default();
+	let g = Hash::from_vec(&[7u8; 32]);
+	struct Case {
+		kind: &'static str,
+		ver: u32,
+		bytes: Vec<u8>,
+		want: Vec<u8>,
+		mapped: usize,
+	}
+	let mut cases: Vec<Case> = vec![];
+	for (i, ver) in VERSIONS.iter().enumerate() {
+		let ver = *ver;
+		// PeerAddrs: all the addresses, rotated
+		let mut peers = addrs.clone();
+		peers.rotate_left(i * 3);
+		let want = PeerAddrs { peers: peers.iter().map(norm_addr).collect() };
+		let n_mapped = peers.iter().filter(|a| norm_addr(a) != **a).count();
+		let m = PeerAddrs { peers };
+		cases.push(Case { kind: "peeraddrs", ver, bytes: wire(&Msg::new(Type::PeerAddrs, m, ProtocolVersion(ver)).unwrap()), want: sv(&want, ver), mapped: n_mapped });
+	}
+	for (i, a) in addrs.iter().enumerate() {
+		let ver = VERSIONS[i % 4];
+		let other = addrs[(i * 7 + 3) % addrs.len()].clone();
+		let mk = |s: &PeerAddr, r: &PeerAddr| Hand {
+			version: ProtocolVersion(ver),
+			capabilities: caps,
+			nonce: 1000 + i as u64,
+			genesis: g,
+			total_difficulty: Difficulty::from_num(77),
+			sender_addr: s.clone(),
+			receiver_addr: r.clone(),
+			user_agent: "verif/addr".to_string(),
+		};
+		let hand = mk(a, &other);
+		let want = mk(&norm_addr(a), &norm_addr(&other));
+		let n_mapped = [a, &other].iter().filter(|x| norm_addr(x) != ***x).count();
+		cases.push(Case { kind: "hand", ver, bytes: wire(&Msg::new(Type::Hand, hand, ProtocolVersion(ver)).unwrap()), want: sv(&want, ver), mapped: n_mapped });
+	}
+	{
+		let shake = Shake { version: ProtocolVersion(3), capabilities: caps, genesis: g, total_difficulty: Difficulty::from_num(5), user_agent: "verif/addr".to_string() };
+		let want = sv(&shake, 3);
+		cases.push(Case { kind: "shake", ver: 3, bytes: wire(&Msg::new(Type::Shake, shake, ProtocolVersion(3)).unwrap()), want, mapped: 0 });
+	}
+	for (ci, c) in cases.iter().enumerate() {
+		let ty = match c.kind {
+			"hand" => Type::Hand,
+			"shake" => Type::Shake,
+			_ => Type::PeerAddrs,
+		};
+		// unfragmented, EVERY single split point for the first case of each kind (all cases when thorough), a sample otherwise
+		let mut plans: Vec<Vec<usize>> = vec![vec![]];
+		let exhaustive = cx.thorough || ci == 0 || ci == 4 || c.kind == "shake";
+		if exhaustive {
+			for p in 1..c.bytes.len() {
+				plans.push(vec![p]);
+			}
+			cx.stat(&format!("addr: {} messages cut at every single split point", c.kind));
+		} else {
+			for _ in 0..6 {
+				plans.push(vec![1 + cx.rng.below(c.bytes.len() as u64 - 1) as usize]);
+			}
+		}
+		let mut ps: Vec<usize> = (0..5).map(|_| 1 + cx.rng.below(c.bytes.len() as u64 - 1) as usize).collect();
+		ps.sort_unstable();
+		ps.dedup();
+		plans.push(ps);
+		for ps in plans {
+			let frags = split_at_points(&c.bytes, &ps);
+			let r = match c.kind {
+				"hand" => read_over_tcp::<Hand>(&frags, c.ver, ty),
+				"shake" => read_over_tcp::<Shake>(&frags, c.ver, ty),
+				_ => read_over_tcp::<PeerAddrs>(&frags, c.ver, ty),
+			};
+			cx.stat(&format!("addr: {} read through read_message over TCP", c.kind));
+			let rs = match &r {
+				Ok(b) => format!("ok {}", hex(b)),
+				Err(e) => format!("err {}", e),
+			};
+			if r.as_ref().ok() != Some(&c.want) {
+				cx.fails += 1;
+				cx.out.raw(&format!(
+					"#ORACLE-FAIL C19 address-carrying {} message not read back as written (version {}, {} fragments, {} IPv4-mapped addresses expected as IPv4): read {} expected {} stream {}",
+					c.kind, c.ver, frags.len(), c.mapped, rs.chars().take(400).collect::<String>(), hex(&c.want).chars().take(400).collect::<String>(), hex(&c.bytes).chars().take(400).collect::<String>()
+				));
+			}
+			cx.out.line(&format!("codec rmsgv {} {}", c.kind, hex_list(&frags)), &rs);
+		}
+		if c.mapped > 0 {
+			cx.stat("addr: messages containing IPv4-mapped IPv6 addresses (read back as IPv4: recorded C10 finding peeraddr-v6-mapped-to-v4)");
+		}
+	}
+	cx.out.raw(&format!("#STAT addr: addresses used: ::/96 not mapped {:?}, other IPv6 {:?}, IPv4-mapped {:?}, 2 IPv4", compat, other6, mapped));
+}
+
+// ---------------------------------------------------------------------------------------------
+// refusals at CONNECTION level: the reader loop of conn.rs, alone and behind a real Peer
+
+static READER_PANICS: AtomicUsize = AtomicUsize::new(0);
+
+/// a `NetAdapter` that records what `Protocol` + `TrackingAdapter` hand to the node
+struct RecAdapter {
+	ver: u32,
+	log: Mutex<Vec<String>>,
+}
+impl RecAdapter {
+	fn push(&self, s: String) {
+		self.log.lock().unwrap().push(s);
+	}
+}
+impl ChainAdapter for RecAdapter {
+	fn total_difficulty(&self) -> Result<Difficulty, grin_chain::Error> {
+		Ok(Difficulty::from_num(4242))
+	}
+	fn total_height(&self) -> Result<u64, grin_chain::Error> {
+		Ok(4243)
+	}
+	fn transaction_received(&self, tx: Transaction, _stem: bool) -> Result<bool, grin_chain::Error> {
+		self.push(format!("payload:{}:{}", if _stem { Type::StemTransaction as u8 } else { Type::Transaction as u8 }, sv(&tx, self.ver).len()));
+		Ok(true)
+	}
+	fn get_transaction(&self, _h: Hash) -> Option<Transaction> {
+		None
+	}
+	fn tx_kernel_received(&self, _h: Hash, _p: &PeerInfo) -> Result<bool, grin_chain::Error> {
+		self.push("other:kernel".to_string());
+		Ok(true)
+	}
+	fn block_received(&self, b: Block, _p: &PeerInfo, _o: grin_chain::Options) -> Result<bool, grin_chain::Error> {
+		self.push(format!("payload:{}:{}", Type::Block as u8, sv(&b, self.ver).len()));
+		Ok(true)
+	}
+	fn compact_block_received(&self, cb: CompactBlock, _p: &PeerInfo) -> Result<bool, grin_chain::Error> {
+		self.push(format!("payload:{}:{}", Type::CompactBlock as u8, sv(&cb, self.ver).len()));
+		Ok(true)
+	}
+	fn header_received(&self, _bh: BlockHeader, _p: &PeerInfo) -> Result<bool, grin_chain::Error> {
+		self.push("other:header".to_string());
+		Ok(true)
+	}
+	fn headers_received(&self, _bh: &[BlockHeader], _p: &PeerInfo) -> Result<bool, grin_chain::Error> {
+		self.push("other:headers".to_string());
+		Ok(true)
+	}
+	fn locate_headers(&self, _l: &[Hash]) -> Result<Vec<BlockHeader>, grin_chain::Error> {
+		Ok(vec![])
+	}
+	fn get_block(&self, _h: Hash, _p: &PeerInfo) -> Option<Block> {
+		None
+	}
+	fn txhashset_read(&self, _h: Hash) -> Option<TxHashSetRead> {
+		None
+	}
+	fn txhashset_archive_header(&self) -> Result<BlockHeader, grin_chain::Error> {
+		Err(grin_chain::Error::Other("no archive".into()))
+	}
+	fn txhashset_receive_ready(&self) -> bool {
+		false
+	}
+	fn txhashset_download_update(&self, _s: chrono::DateTime<Utc>, _d: u64, _t: u64) -> bool {
+		false
+	}
+	fn txhashset_write(&self, _h: Hash, _f: std::fs::File, _p: &PeerInfo) -> Result<bool, grin_chain::Error> {
+		Ok(false)
+	}
+	fn get_tmp_dir(&self) -> std::path::PathBuf {
+		std::path::PathBuf::from(std::env::var("VERIF_WORK").unwrap_or_default())
+	}
+	fn get_tmpfile_pathname(&self, n: String) -> std::path::PathBuf {
+		self.get_tmp_dir().join(n)
+	}
+	fn get_kernel_segment(&self, _h: Hash, _i: SegmentIdentifier) -> Result<Segment<TxKernel>, grin_chain::Error> {
+		Err(grin_chain::Error::Other("no segments".into()))
+	}
+	fn get_bitmap_segment(&self, _h: Hash, _i: SegmentIdentifier) -> Result<(Segment<grin_chain::txhashset::BitmapChunk>, Hash), grin_chain::Error> {
+		Err(grin_chain::Error::Other("no segments".into()))
+	}
+	fn get_output_segment(&self, _h: Hash, _i: SegmentIdentifier) -> Result<(Segment<OutputIdentifier>, Hash), grin_chain::Error> {
+		Err(grin_chain::Error::Other("no segments".into()))
+	}
+	fn get_rangeproof_segment(&self, _h: Hash, _i: SegmentIdentifier) -> Result<Segment<RangeProof>, grin_chain::Error> {
+		Err(grin_chain::Error::Other("no segments".into()))
+	}
+	fn receive_bitmap_segment(&self, _b: Hash, _o: Hash, _s: Segment<grin_chain::txhashset::BitmapChunk>) -> Result<bool, grin_chain::Error> {
+		Ok(false)
+	}
+	fn receive_output_segment(&self, _b: Hash, _r: Hash, _s: Segment<OutputIdentifier>) -> Result<bool, grin_chain::Error> {
+		Ok(false)
+	}
+	fn receive_rangeproof_segment(&self, _b: Hash, _s: Segment<RangeProof>) -> Result<bool, grin_chain::Error> {
+		Ok(false)
+	}
+	fn receive_kernel_segment(&self, _b: Hash, _s: Segment<TxKernel>) -> Result<bool, grin_chain::Error> {
+		Ok(false)
+	}
+}
+impl NetAdapter for RecAdapter {
+	fn find_peer_addrs(&self, c: Capabilities) -> Vec<PeerAddr> {
+		self.push(format!("getpeeraddrs:{}", c.bits()));
+		vec![]
+	}
+	fn peer_addrs_received(&self, _: Vec<PeerAddr>) {
+		self.push("other:peeraddrs".to_string());
+	}
+	fn peer_difficulty(&self, _: PeerAddr, _: Difficulty, height: u64) {
+		self.push(format!("ping:{}", height));
+	}
+	fn is_banned(&self, _: PeerAddr) -> bool {
+		false
+	}
+}
+
+struct PeerRes {
+	events: Vec<String>,
+	pongs: usize,
+	closed: bool,
+	version: u32,
+}
+
+/// a raw socket does a real Hand/Shake with a real `Peer::accept` (Protocol + TrackingAdapter + `RecAdapter`),
+/// then writes `sched`
+fn run_peer(hand_ver: u32, sched: &[(u64, Vec<u8>)], want_pongs: usize) -> Result<PeerRes, String> {
+	let g = Hash::from_vec(&[7u8; 32]);
+	let listener = TcpListener::bind("127.0.0.1:0").unwrap();
+	let mut client = TcpStream::connect(listener.local_addr().unwrap()).unwrap();
+	client.set_nodelay(true).unwrap();
+	let (server, _) = listener.accept().unwrap();
+	let ver = hand_ver.min(1000);
+	let adapter = Arc::new(RecAdapter { ver, log: Mutex::new(vec![]) });
+	let ad2 = adapter.clone();
+	let t = std::thread::spawn(move || {
+		global::set_local_chain_type(ChainTypes::AutomatedTesting);
+		let hs = Handshake::new(g, P2PConfig::default());
+		Peer::accept(server, Capabilities::default(), Difficulty::from_num(9), &hs, ad2).map_err(|e| err_name(&e))
+	});
+	let self_addr = PeerAddr("127.0.0.1:3414".parse().unwrap());
+	let hand = Hand {
+		version: ProtocolVersion(hand_ver),
+		capabilities: Capabilities::default(),
+		nonce: 0x5eed_0000 + hand_ver as u64,
+		genesis: g,
+		total_difficulty: Difficulty::from_num(1),
+		sender_addr: self_addr,
+		receiver_addr: self_addr,
+		user_agent: "verif/peer".to_string(),
+	};
+	client.write_all(&wire(&Msg::new(Type::Hand, hand, ProtocolVersion(hand_ver)).unwrap())).map_err(|e| e.to_string())?;
+	// the Shake
+	let _ = client.set_read_timeout(Some(Duration::from_secs(5)));
+	let mut head = [0u8; 11];
+	client.read_exact(&mut head).map_err(|e| format!("no Shake: {}", e))?;
+	if head[2] != Type::Shake as u8 {
+		return Err(format!("first frame from the peer has type {}", head[2]));
+	}
+	let mut l = [0u8; 8];
+	l.copy_from_slice(&head[3..11]);
+	let mut body = vec![0u8; u64::from_be_bytes(l) as usize];
+	client.read_exact(&mut body).map_err(|e| format!("short Shake: {}", e))?;
+	let peer = t.join().map_err(|_| "accept thread panicked".to_string())??;
+	let (pongs, closed) = drive_client(&mut client, sched, want_pongs);
+	peer.stop();
+	let _ = client.shutdown(Shutdown::Both);
+	let events = adapter.log.lock().unwrap().clone();
+	Ok(PeerRes { events, pongs, closed, version: peer.info.version.value() })
+}
+
+fn ping_frame(ver: u32, height: u64) -> Vec<u8> {
+	wire(&Msg::new(Type::Ping, Ping { total_difficulty: Difficulty::from_num(31337), height }, ProtocolVersion(ver)).unwrap())
+}
+
+fn getpeers_frame(ver: u32, caps: u32) -> Vec<u8> {
+	wire(&Msg::new(Type::GetPeerAddrs, GetPeerAddrs { capabilities: Capabilities::from_bits_truncate(caps) }, ProtocolVersion(ver)).unwrap())
+}
+
+fn raw_frame(magic: [u8; 2], t: u8, len: u64, body: &[u8]) -> Vec<u8> {
+	let mut w = vec![magic[0], magic[1], t];
+	w.extend_from_slice(&len.to_be_bytes());
+	w.extend_from_slice(body);
+	w
+}
+
+fn conn_level(cx: &mut Ctx, work: &std::path::Path) {
+	// what the peer writes: (name, version, frames before the bad one that must be delivered [heights of the Pings],
+	// the stream, must the connection end, C11 regression tag)
+	struct Case {
+		name: String,
+		ver: u32,
+		stream: Vec<u8>,
+		/// events the node must see, in the `peer` rendering
+		want: Vec<String>,
+		pongs: usize,
+		want_closed: bool,
+		empty_tx: bool,
+	}
+	let mut cases: Vec<Case> = vec![];
+	let versions: Vec<u32> = if cx.thorough { VERSIONS.to_vec() } else { vec![1000, 2] };
+	for (vi, &ver) in versions.iter().enumerate() {
+		// the bytes a refused header announces as its "body": complete valid frames with recognisable contents
+		let mut hidden = ping_frame(ver, 666_001);
+		hidden.extend_from_slice(&getpeers_frame(ver, 0x0f));
+		hidden.extend_from_slice(&ping_frame(ver, 666_002));
+		let first = ping_frame(ver, 1_001);
+		let mk = |name: &str, bad: Vec<u8>| {
+			let mut stream = first.clone();
+			stream.extend_from_slice(&bad);
+			stream.extend_from_slice(&hidden);
+			Case { name: name.to_string(), ver, stream, want: vec!["ping:1001".to_string()], pongs: 1, want_closed: true, empty_tx: false }
+		};
+		// wrong magic: mainnet magic, one wrong byte
+		cases.push(mk("wrong magic (mainnet), Ping header announcing the hidden frames as its body", raw_frame([97, 61], Type::Ping as u8, hidden.len() as u64, &[])));
+		cases.push(mk("wrong second magic byte, GetPeerAddrs header", raw_frame([73, 44], Type::GetPeerAddrs as u8, 4, &[])));
+		// announced length limit + 1 for the type
+		cases.push(mk("Ping announcing 65 bytes (limit 64)", raw_frame([73, 43], Type::Ping as u8, 65, &[])));
+		cases.push(mk("GetPeerAddrs announcing 17 bytes (limit 16)", raw_frame([73, 43], Type::GetPeerAddrs as u8, 17, &[])));
+		if cx.thorough || vi == 0 {
+			cases.push(mk("unknown type 200 announcing 4 x default + 1", raw_frame([73, 43], 200, 4 * (global::max_block_weight() / 21 * 708) + 1, &[])));
+			cases.push(mk("Ping announcing 2^64-1 bytes", raw_frame([73, 43], Type::Ping as u8, u64::MAX, &[])));
+		}
+		// body-level decode error inside a fully consumed body: a PeerAddrs with one address of family tag 9,
+		// a BanReason with an undefined reason
+		let mut bad_addrs = 1u32.to_be_bytes().to_vec();
+		bad_addrs.push(9);
+		bad_addrs.extend_from_slice(&[0u8; 18]);
+		cases.push(mk("PeerAddrs whose only address has family tag 9 (CorruptedData in a consumed body)", raw_frame([73, 43], Type::PeerAddrs as u8, bad_addrs.len() as u64, &bad_addrs)));
+		cases.push(mk("BanReason 77 (CorruptedData in a consumed body)", raw_frame([73, 43], Type::BanReason as u8, 4, &77u32.to_be_bytes())));
+		// a Ping body of 15 bytes (short body: IOErr at the decoder)
+		cases.push(mk("Ping with a 15-byte body", raw_frame([73, 43], Type::Ping as u8, 15, &[7u8; 15])));
+		// control: the same hidden frames sent as what they are
+		{
+			let mut stream = first.clone();
+			stream.extend_from_slice(&hidden);
+			cases.push(Case {
+				name: "control: the same frames without a refused header in front".to_string(),
+				ver,
+				stream,
+				want: vec!["ping:1001".into(), "ping:666001".into(), "getpeeraddrs:15".into(), "ping:666002".into()],
+				pongs: 3,
+				want_closed: false,
+				empty_tx: false,
+			});
+		}
+		// (4) regression probes of the repaired defect 0aea8354a: bodies without inputs, outputs and kernels
+		let empty_body = {
+			let mut b = vec![0u8; 32];
+			b.extend_from_slice(&[0u8; 24]);
+			b
+		};
+		for (t, nm) in [(Type::Transaction, "Transaction"), (Type::StemTransaction, "StemTransaction")] {
+			let mut stream = raw_frame([73, 43], t as u8, 56, &empty_body);
+			stream.extend_from_slice(&ping_frame(ver, 2_002));
+			cases.push(Case {
+				name: format!("{} without inputs, outputs and kernels (56 bytes), then a Ping", nm),
+				ver,
+				stream,
+				want: vec![format!("payload:{}:56", t as u8), "ping:2002".into()],
+				pongs: 1,
+				want_closed: false,
+				empty_tx: true,
+			});
+		}
+		let hdr = header_pool(cx, 1).pop().unwrap();
+		let empty_block = Block { header: hdr, body: TransactionBody::init(Inputs::from(Vec::<Input>::new().as_slice()), &[], &[], false).unwrap() };
+		let bb = sv(&empty_block, ver);
+		let mut stream = raw_frame([73, 43], Type::Block as u8, bb.len() as u64, &bb);
+		stream.extend_from_slice(&ping_frame(ver, 2_003));
+		cases.push(Case { name: "Block with an empty body, then a Ping".into(), ver, stream, want: vec![format!("payload:{}:{}", Type::Block as u8, bb.len()), "ping:2003".into()], pongs: 1, want_closed: false, empty_tx: true });
+		let cb: CompactBlock = empty_block.clone().into();
+		let cbb = sv(&cb, ver);
+		let mut stream = raw_frame([73, 43], Type::CompactBlock as u8, cbb.len() as u64, &cbb);
+		stream.extend_from_slice(&ping_frame(ver, 2_004));
+		cases.push(Case { name: "CompactBlock with an empty body, then a Ping".into(), ver, stream, want: vec![format!("payload:{}:{}", Type::CompactBlock as u8, cbb.len()), "ping:2004".into()], pongs: 1, want_closed: false, empty_tx: true });
+	}
+
+	// A. through conn::listen with the recording MessageHandler (lines `codec timed`): the refusals only
+	let mut scns: Vec<Scn> = vec![];
+	for c in cases.iter().filter(|c| c.want_closed) {
+		let mut conv = Conv::new(c.ver);
+		conv.stream = c.stream.clone();
+		conv.names.push(c.name.clone());
+		conv.zones.push(("None", 0, c.stream.len()));
+		// what the handler must see: the first Ping only
+		let first_body = &c.stream[11..27];
+		conv.exp.push(Exp::Body(Type::Ping as u8, hex(first_body)));
+		conv.pings = 1;
+		scns.push(Scn { name: format!("refused at connection level (listen): {}", c.name), conv, cuts: vec![(27, 300)], outside: false, want_closed: true });
+		if cx.thorough {
+			// the refused header in a fragment of its own
+			let mut conv = Conv::new(c.ver);
+			conv.stream = c.stream.clone();
+			conv.names.push(c.name.clone());
+			conv.zones.push(("None", 0, c.stream.len()));
+			conv.exp.push(Exp::Body(Type::Ping as u8, hex(first_body)));
+			conv.pings = 1;
+			scns.push(Scn { name: format!("refused at connection level (listen, header in its own fragment): {}", c.name), conv, cuts: vec![(27, 300), (38, 20)], outside: false, want_closed: true });
+		}
+	}
+	deliver_all(cx, &scns, work, "conn");
+
+	// B. through a real Peer::accept after a real Hand/Shake (lines `codec peer`)
+	let now = Utc::now().timestamp();
+	let panics_before = READER_PANICS.load(Ordering::SeqCst);
+	let t_all = Instant::now();
+	let batch = 12;
+	let mut results: Vec<Option<Result<PeerRes, String>>> = (0..cases.len()).map(|_| None).collect();
+	let mut start = 0;
+	while start < cases.len() {
+		let end = (start + batch).min(cases.len());
+		let handles: Vec<_> = (start..end)
+			.map(|i| {
+				// the first Ping on its own, so that its Pong is on the wire before the reader meets the refused frame
+				// (the reader thread shuts the socket down at once; a Pong still queued in the writer thread would be lost)
+				let sched = if cases[i].want_closed {
+					vec![(0u64, cases[i].stream[..27].to_vec()), (300u64, cases[i].stream[27..].to_vec())]
+				} else {
+					vec![(0u64, cases[i].stream.clone())]
+				};
+				let ver = cases[i].ver;
+				let pongs = cases[i].pongs;
+				std::thread::spawn(move || {
+					global::set_local_chain_type(ChainTypes::AutomatedTesting);
+					run_peer(ver, &sched, pongs)
+				})
+			})
+			.collect();
+		for (j, h) in handles.into_iter().enumerate() {
+			results[start + j] = h.join().ok();
+		}
+		start = end;
+	}
+	let reader_panics = READER_PANICS.load(Ordering::SeqCst) - panics_before;
+	for (i, c) in cases.iter().enumerate() {
+		let r = match &results[i] {
+			Some(Ok(r)) => r,
+			Some(Err(e)) => {
+				cx.fails += 1;
+				cx.out.raw(&format!("#ORACLE-FAIL C19 real Peer set-up failed ({}): {}", c.name, e));
+				continue;
+			}
+			None => {
+				cx.fails += 1;
+				cx.out.raw(&format!("#ORACLE-FAIL C19 real Peer delivery panicked in the harness: {}", c.name));
+				continue;
+			}
+		};
+		cx.stat(if c.want_closed { "peer: refused frames followed by hidden valid frames" } else if c.empty_tx { "peer: empty-bodied transaction / block probes" } else { "peer: control conversations" });
+		let hidden_run = r.events.iter().any(|e| e.contains("66600")) || r.events.iter().any(|e| e.starts_with("getpeeraddrs")) && c.want_closed;
+		if r.events != c.want || r.pongs != c.pongs || r.closed != c.want_closed || r.version != c.ver.min(1000) {
+			cx.fails += 1;
+			if c.empty_tx {
+				let tag = if reader_panics > 0 { "transaction-without-kernels-panics-peer-reader" } else { "empty-bodied-message-breaks-peer" };
+				let txt = format!(
+					"{} sent to a real Peer (Protocol + TrackingAdapter), protocol version {}: node saw {:?} (expected {:?}), Ping answered: {} of {}, connection closed: {}, reader-thread panics during this batch: {}; stream {}",
+					c.name, c.ver, r.events, c.want, r.pongs, c.pongs, r.closed, reader_panics, hex(&c.stream)
+				);
+				cx.out.raw(&format!("#ORACLE-FAIL C11 {} {}", tag, txt));
+				cx.out.raw(&format!("#ORACLE-FAIL C19 {} {}", tag, txt));
+			} else {
+				cx.out.raw(&format!(
+					"#ORACLE-FAIL C19 refusal at connection level (real Peer){}: {} (protocol version {}): node saw {:?} (expected {:?}), Pongs {} (expected {}), connection closed {} (expected {}); stream {}",
+					if hidden_run { " - a message hidden in the announced body of a refused frame was executed" } else { "" },
+					c.name, c.ver, r.events, c.want, r.pongs, c.pongs, r.closed, c.want_closed, hex(&c.stream)
+				));
+			}
+		}
+		let mut evs = r.events.clone();
+		evs.push(format!("pongs:{}", r.pongs));
+		evs.push(format!("closed:{}", if r.closed { 1 } else { 0 }));
+		let sched_txt = if c.want_closed { format!("0:{},300:{}", hex(&c.stream[..27]), hex(&c.stream[27..])) } else { format!("0:{}", hex(&c.stream)) };
+		cx.out.line(&format!("codec peer {} {} [{}]", c.ver, now, sched_txt), &format!("[{}]", evs.join(";")));
+		if c.want_closed && c.name.contains("CorruptedData") {
+			cx.out.raw(&format!("#STAT peer: body-level decode error ({}): the code {} (property allows closing or skipping exactly that message)", c.name, if r.closed { "CLOSES the connection" } else { "skips the message and goes on" }));
+		}
+	}
+	if reader_panics > 0 {
+		cx.fails += 1;
+		cx.out.raw(&format!("#ORACLE-FAIL C11 transaction-without-kernels-panics-peer-reader {} panic(s) in peer_read / peer_write threads during the real-Peer deliveries", reader_panics));
+	}
+	cx.out.raw(&format!("#STAT peer: {} deliveries to a real Peer in {} ms, reader-thread panics: {}", cases.len(), t_all.elapsed().as_millis(), reader_panics));
 }
 
 // ---------------------------------------------------------------------------------------------
@@ -1786,6 +2396,13 @@ fn nonce_ring(cx: &mut Ctx) {
 
 fn main() {
 	quiet_panics();
+	// count panics of the threads conn::listen spawns (they cannot be joined from here); stay quiet
+	std::panic::set_hook(Box::new(|_| {
+		let name = std::thread::current().name().unwrap_or("").to_string();
+		if name == "peer_read" || name == "peer_write" {
+			READER_PANICS.fetch_add(1, Ordering::SeqCst);
+		}
+	}));
 	global::set_local_chain_type(ChainTypes::AutomatedTesting);
 	// the reader / writer threads `conn::listen` spawns have no thread-local chain type
 	global::init_global_chain_type(ChainTypes::AutomatedTesting);
@@ -1799,9 +2416,14 @@ fn main() {
 	if mode == "all" || mode == "refuse" {
 		refusals(&mut cx);
 		headers_inconsistent(&mut cx);
+		headers_excess(&mut cx);
 	}
 	if mode == "all" || mode == "handshake" {
 		handshakes(&mut cx);
+		addr_messages(&mut cx);
+	}
+	if mode == "all" || mode == "conn" {
+		conn_level(&mut cx, &work);
 	}
 	if mode == "all" || mode == "timed" {
 		timed(&mut cx, &work);
